@@ -18,6 +18,9 @@ func extraCommand(cmd string, args []string) bool {
 	case "cfgtok":
 		fmt.Println(defaultCfg.Tok)
 		return true
+	case "exec":
+		execCommand()
+		return true
 	case "cost":
 		return costCommand(args)
 	case "race":
